@@ -11,11 +11,22 @@
     * `srcIntegral … = Gen.SrcC01.path_integral …` called as `TransmissionModel.model()` calls it; `.1 wn` is the returned
       depth, `.2 l wn` the returned `exp(-tau)`.  Tie hypotheses kept visible: `0 < total` (a CIA contribution has at least
       one pair), `wn < nwn`, `l < n` (the tie identifies the entries inside the arrays), and for `new_path_method=True`
-      the external `planet.compute_path_length` (`planetPaths`) returning the chords `chordNew` (`NewPathsOK`: what
-      `C01.path3d_eq_chordNew` proves of the modelled 3-D geometry).
+      `planet.compute_path_length` (`planetPaths`) returning the chords `chordNew` (`NewPathsOK`: a hypothesis for an
+      arbitrary `planetPaths`, a theorem — `newPathsOK_src` — for the regenerated 3-D geometry `srcPlanetPaths`).
     * `Gen.SrcC01.compute_absorption` for an arbitrary optical-depth table (no hypotheses in the tie).
     * `Gen.SrcC01.compute_path_length_old` (row `l` of the returned list).
     * `Gen.SrcC01.parallel_vector` (column `j` of the returned `viewer`).
+    * the 3-D geometry of `new_path_method=True`: `srcPlanetPaths` / `srcRow3d` = what the regenerated
+      `BasePlanet.compute_path_length` → `compute_path_length_3d` → `compute_line_3d`, `normalize`, `compute_intersection_3d`,
+      `multi_dot` return when called as the regenerated `TransmissionModel.compute_path_length` calls them
+      (`C01Src.src_planet_paths`: row by row the model's `Geometry.pathRow3d`).  `path3d_eq_chordNew`, `pathRow3d_length` and
+      `src_path_integral_new` are restated with that instantiation: `NewPathsOK` is no longer an external hypothesis but the
+      theorem `newPathsOK_src`, from `GeomOK` (the well-formed shell grid of `C01.path3d_eq_chordNew`), `0 < n`, and the
+      explicit instantiation `NanSel` of `np.isfinite` (NaN is not a real number: a sphere's distance counts as finite exactly
+      when its discriminant is `≥ 0`; `nanSel_witness` shows the instantiation is consistent).  `nan` (the fill value
+      `np.nan`, overwritten everywhere) and `crossing` (the body of the planet-crossing branch of `compute_intersection_3d`,
+      whose test is translated and false on a well-formed grid) are arbitrary.  Every `src_*` theorem below that assumes
+      `NewPathsOK` holds for the regenerated geometry by `newPathsOK_src`.
 
   Not restated (no tie)
     * `tau_nonneg`, `tau_mono_sigma`, `cutoff_licensed`: they speak of `tauFull`, the sum WITHOUT the early exit, which the
@@ -25,9 +36,12 @@
       `depth_cut_mono_scale_within` is restated; in `src_depth_cut_within` the documented integral stays the model's
       `modelDepth false`, the returned depth is the source.
     * `opaque_le_disc` (a statement about the altitude grid only, no function of the code in it).
-    * `chordNew_radicand_nonneg`, `chordNew_nonneg`, `chordNew_sum`, `sphere_chord`, `origin_inside_clips`,
-      `path3d_eq_chordNew`, `pathRow3d_length`: `compute_path_length_3d` and `taurex/util/geometry.py` beyond
-      `parallel_vector` are not translated (the 3-D geometry is the parameter `planetPaths`).
+    * `chordNew_radicand_nonneg`: about the radicand inside the closed form, an intermediate value no translated function
+      returns (`chordNew_nonneg`, `chordNew_sum` are restated about the rows the regenerated geometry returns).
+    * `sphere_chord`, `origin_inside_clips`: one sphere and one ray of the model's `intersect` with symbolic `X`, `b`; the
+      regenerated `compute_intersection_3d` is tied to `intersect` as a whole table (`C01Src.src_compute_intersection_3d`),
+      under the hypothesis that some sphere is hit (it returns `None` otherwise), so a single-sphere statement has no
+      source counterpart of its own.
     * `chordOld_radicand_nonneg`: about the radicand inside the model's `oldHalf`, an intermediate value the translated
       `compute_path_length_old` does not return.
     * `wellFormed_of_shells`, `nvContribs_nonneg`: hypothesis builders, no function of the code in the conclusion.
@@ -194,4 +208,199 @@ theorem src_origin_outside (rp : ℝ) (n : ℕ) (zb z dz : ℕ → ℝ) (G : Geo
     (rp + zb j) * (rp + zb j) ≤ normSq (srcViewer rp (arrMax n zb) alt nA k) := by
   rw [srcViewer_eq]; exact origin_outside rp n zb z dz G (alt k) j hj
 
+open Taurex.Geometry
+
+/-! ### the 3-D geometry: `planet.compute_path_length` regenerated -/
+
+/-- the type of the abstract "planet crossing" branch of `compute_intersection_3d` -/
+abbrev Crossing := (ℕ → ℝ) → (ℕ → Bool) → (ℕ → ℝ) → (ℕ → ℕ → ℝ) → (ℕ → ℕ → ℝ) → (ℕ → ℕ → ℕ → ℕ → ℝ) → (ℕ → ℕ → ℕ → ℕ → ℝ)
+
+/-- origin of the line of sight of tangent layer `l` (what `compute_line_3d(parallel_vector(…))` gives; direction `(1,0,0)`) -/
+noncomputable def rayOrigin (rp : ℝ) (n : ℕ) (zb z dz : ℕ → ℝ) (l : ℕ) : V3 ℝ := ⟨-(rp + arrMax n zb * 2), rp + (z l + dz l / 2), 0⟩
+
+/-- the instantiation of `np.isfinite` (NaN is not a real number): for every line of sight and every boundary sphere, the
+    distance the code computes is finite exactly when the sphere's discriminant is non-negative — in IEEE arithmetic
+    `np.sqrt(delta)` is NaN exactly for `delta < 0` and the NaN propagates to the distance -/
+def NanSel (isfinite : ℝ → Bool) (rp : ℝ) (n : ℕ) (zb z dz : ℕ → ℝ) : Prop :=
+  ∀ l < n, ∀ j < n + 1,
+    isfinite (hitDistance (intersect rp (zb j) ⟨1, 0, 0⟩ (rayOrigin rp n zb z dz l)))
+      = decide (0 ≤ (intersect rp (zb j) ⟨1, 0, 0⟩ (rayOrigin rp n zb z dz l)).delta)
+
+/-- what `TransmissionModel.compute_path_length` reads from `self.planet.compute_path_length(…)`
+    (`[l for idx, l in path_lengths]`): the arrays of the regenerated `BasePlanet.compute_path_length` → `compute_path_length_3d`
+    (`None`, which the list comprehension cannot iterate, is totalised to the empty list) -/
+noncomputable def srcPlanetPaths (crossing : Crossing) (isfinite : ℝ → Bool) (nan rp : ℝ) (n : ℕ) :
+    (ℕ → ℝ) → (ℕ → ℕ → ℝ) → (ℕ → ℕ → ℝ) → List (ℕ → ℝ) :=
+  fun zb viewer tangent =>
+    ((Gen.SrcC01.planet_compute_path_length zb viewer tangent crossing isfinite (n + 1) n nan rp).getD []).map (fun r => r.2)
+
+theorem map_range_eq {β : Type} {f g : ℕ → β} {a b : ℕ} (h : (List.range a).map f = (List.range b).map g) :
+    a = b ∧ ∀ k < a, f k = g k := by
+  have hab : a = b := by simpa using congrArg List.length h
+  subst hab
+  refine ⟨rfl, fun k hk => ?_⟩
+  have := congrArg (fun l => l[k]?) h
+  simpa [hk] using this
+
+section geom
+variable {rp : ℝ} {n : ℕ} {zb z dz : ℕ → ℝ}
+
+/-- **the regenerated 3-D geometry returns the model's rows** (`Geometry.pathRow3d`), for a well-formed shell grid -/
+theorem src_planet_rows (G : GeomOK rp n zb z dz) (hn : 0 < n) (crossing : Crossing) (isfinite : ℝ → Bool) (nan : ℝ)
+    (hF : NanSel isfinite rp n zb z dz) :
+    ∃ L, Gen.SrcC01.planet_compute_path_length zb
+        (rows (fun l => (parallelVector rp (z l + dz l / 2) (arrMax n zb)).1))
+        (rows (fun l => (parallelVector rp (z l + dz l / 2) (arrMax n zb)).2)) crossing isfinite (n + 1) n nan rp = some L ∧
+      rowLists L = (List.range n).map (fun l => pathRow3d rp n zb z dz l) := by
+  have hline : ∀ l, line3d (parallelVector rp (z l + dz l / 2) (arrMax n zb)).1 (parallelVector rp (z l + dz l / 2) (arrMax n zb)).2
+      = (rayOrigin rp n zb z dz l, ⟨1, 0, 0⟩) := fun l => line_of_parallel rp _ _ G.X_pos
+  refine src_planet_paths (fun x => zero_add x) rp n zb z dz crossing isfinite nan ?_ ?_ ?_
+  · intro l hl j hj
+    rw [hline l]
+    exact hF l hl j hj
+  · refine ⟨n, by omega, 0, hn, ?_⟩
+    rw [hline 0]
+    simp only [rayOrigin]
+    rw [intersect_delta]
+    obtain ⟨_, hb2⟩ := G.b_bounds 0 hn
+    have h1 := G.shells.zb_mono 1 n (by omega) (le_refl _)
+    have h2 := G.zb_nonneg 0 (by omega)
+    have h3 := (G.b_bounds 0 hn).1
+    have hrp := G.rp_pos
+    nlinarith
+  · intro l hl
+    rw [hline l]
+    simp only [rayOrigin, deltaP, dot, normSq, V3.mul, V3.sum]
+    obtain ⟨hb1, _⟩ := G.b_bounds l hl
+    have h2 := G.zb_nonneg l (by omega)
+    have hrp := G.rp_pos
+    nlinarith
+
+/-- row `l` of the regenerated geometry, as a list (`model.path_length[l]` for `new_path_method=True`) -/
+noncomputable def srcRow3d (crossing : Crossing) (isfinite : ℝ → Bool) (nan rp : ℝ) (n : ℕ) (zb z dz : ℕ → ℝ) (l : ℕ) : List ℝ :=
+  (rowLists ((Gen.SrcC01.planet_compute_path_length zb
+        (rows (fun l => (parallelVector rp (z l + dz l / 2) (arrMax n zb)).1))
+        (rows (fun l => (parallelVector rp (z l + dz l / 2) (arrMax n zb)).2)) crossing isfinite (n + 1) n nan rp).getD [])).getD l []
+
+theorem srcRow3d_eq (G : GeomOK rp n zb z dz) (hn : 0 < n) (crossing : Crossing) (isfinite : ℝ → Bool) (nan : ℝ)
+    (hF : NanSel isfinite rp n zb z dz) (l : ℕ) (hl : l < n) :
+    srcRow3d crossing isfinite nan rp n zb z dz l = pathRow3d rp n zb z dz l := by
+  obtain ⟨L, hL, hrows⟩ := src_planet_rows G hn crossing isfinite nan hF
+  unfold srcRow3d
+  rw [hL, Option.getD_some, hrows]
+  simp [List.getD, hl]
+
+/-- `pathRow3d_length` about the source: row `l` of what the regenerated 3-D geometry returns has exactly `n - l` segments -/
+theorem src_pathRow3d_length (G : GeomOK rp n zb z dz) (hn : 0 < n) (crossing : Crossing) (isfinite : ℝ → Bool) (nan : ℝ)
+    (hF : NanSel isfinite rp n zb z dz) (l : ℕ) (hl : l < n) :
+    (srcRow3d crossing isfinite nan rp n zb z dz l).length = n - l := by
+  rw [srcRow3d_eq G hn crossing isfinite nan hF l hl]
+  exact pathRow3d_length rp n zb z dz G l hl
+
+/-- `path3d_eq_chordNew` about the source: the rows `TransmissionModel.compute_path_length` reads from the regenerated
+    `planet.compute_path_length` are the closed-form chords — the former external hypothesis `NewPathsOK`, now a theorem -/
+theorem src_path3d_eq_chordNew (G : GeomOK rp n zb z dz) (hn : 0 < n) (crossing : Crossing) (isfinite : ℝ → Bool) (nan : ℝ)
+    (hF : NanSel isfinite rp n zb z dz) (l k : ℕ) (hl : l < n) (hk : k < n - l) :
+    (srcPlanetPaths crossing isfinite nan rp n zb
+        (rows (fun l => (parallelVector rp (z l + dz l / 2) (arrMax n zb)).1))
+        (rows (fun l => (parallelVector rp (z l + dz l / 2) (arrMax n zb)).2))).getD l (fun _ => 0) k
+      = chordNew rp zb z dz l k := by
+  obtain ⟨L, hL, hrows⟩ := src_planet_rows G hn crossing isfinite nan hF
+  unfold srcPlanetPaths
+  rw [hL, Option.getD_some]
+  have hlen : L.length = n := by simpa [rowLists] using congrArg List.length hrows
+  have hlL : l < L.length := by omega
+  have hrow : (List.range (L[l]).1).map (L[l]).2 = pathRow3d rp n zb z dz l := by
+    have := congrArg (fun x => x[l]?) hrows
+    simpa [rowLists, hlL, hl] using this
+  unfold pathRow3d at hrow
+  obtain ⟨hlen', hval⟩ := map_range_eq hrow
+  have hk' : k < (L[l]).1 := by
+    rw [hlen']
+    have := pathRow3d_length rp n zb z dz G l hl
+    simp only [pathRow3d, List.length_map, List.length_range] at this
+    omega
+  have e : (L.map (fun r => r.2)).getD l (fun _ => 0) = (L[l]).2 := by
+    simp [List.getD, hlL]
+  rw [e, hval k hk']
+  exact path3d_eq_chordNew rp n zb z dz G l k hl hk
+
+/-- `NewPathsOK` for the regenerated geometry -/
+theorem newPathsOK_src (newMethod : Bool) (crossing : Crossing) (isfinite : ℝ → Bool) (nan : ℝ)
+    (hG : newMethod = true → GeomOK rp n zb z dz ∧ 0 < n ∧ NanSel isfinite rp n zb z dz) :
+    NewPathsOK newMethod rp n zb z dz (srcPlanetPaths crossing isfinite nan rp n) := by
+  intro hm l hl k hk
+  obtain ⟨G, hn, hF⟩ := hG hm
+  exact src_path3d_eq_chordNew G hn crossing isfinite nan hF l k hl hk
+
+/-- **`path_integral` with the new path method, the 3-D geometry regenerated too** (`src_path_integral_new` without the
+    external hypothesis): the whole of `TransmissionModel.path_integral`, `compute_path_length`, `parallel_vector`,
+    `BasePlanet.compute_path_length`, `compute_path_length_3d`, `compute_line_3d`, `normalize`, `compute_intersection_3d`
+    (but the body of its planet-crossing branch, not entered here), the kernels and `compute_absorption` compute the model -/
+theorem src_path_integral_new_geom {rs : ℝ} {nwn total : ℕ} {dens : ℕ → ℝ} (G : GeomOK rp n zb z dz) (hn : 0 < n)
+    (crossing : Crossing) (isfinite : ℝ → Bool) (nan : ℝ) (hF : NanSel isfinite rp n zb z dz) (ht : 0 < total)
+    (cs : List (Contrib ℝ)) :
+    (∀ l < n, ∀ wn < nwn,
+      (srcIntegral true rp rs n nwn total zb z dz dens cs (srcPlanetPaths crossing isfinite nan rp n)).2 l wn
+        = modelTrans true true rp n nwn zb z dz dens cs l wn) ∧
+    (∀ wn < nwn,
+      (srcIntegral true rp rs n nwn total zb z dz dens cs (srcPlanetPaths crossing isfinite nan rp n)).1 wn
+        = modelDepth true true rp rs n nwn zb z dz dens cs wn) :=
+  srcIntegral_eq ht cs (newPathsOK_src true crossing isfinite nan (fun _ => ⟨G, hn, hF⟩))
+
+/-- `chordNew_nonneg` about the source: every segment of the rows the regenerated 3-D geometry returns is non-negative -/
+theorem src_chordNew_nonneg (G : GeomOK rp n zb z dz) (hn : 0 < n) (crossing : Crossing) (isfinite : ℝ → Bool) (nan : ℝ)
+    (hF : NanSel isfinite rp n zb z dz) (l k : ℕ) (hl : l < n) (hk : k < n - l) :
+    0 ≤ (srcPlanetPaths crossing isfinite nan rp n zb
+        (rows (fun l => (parallelVector rp (z l + dz l / 2) (arrMax n zb)).1))
+        (rows (fun l => (parallelVector rp (z l + dz l / 2) (arrMax n zb)).2))).getD l (fun _ => 0) k := by
+  rw [src_path3d_eq_chordNew G hn crossing isfinite nan hF l k hl hk]
+  exact chordNew_nonneg rp n zb z dz G.shells l k hl hk
+
+/-- `chordNew_sum` about the source: the segments of row `l` sum to the chord of the outermost sphere -/
+theorem src_chordNew_sum (G : GeomOK rp n zb z dz) (hn : 0 < n) (crossing : Crossing) (isfinite : ℝ → Bool) (nan : ℝ)
+    (hF : NanSel isfinite rp n zb z dz) (l : ℕ) (hl : l < n) :
+    ∑ k ∈ range (n - l), (srcPlanetPaths crossing isfinite nan rp n zb
+        (rows (fun l => (parallelVector rp (z l + dz l / 2) (arrMax n zb)).1))
+        (rows (fun l => (parallelVector rp (z l + dz l / 2) (arrMax n zb)).2))).getD l (fun _ => 0) k
+      = 2 * Transc.sqrt (Transmission.sq (rp + zb n) - Transmission.sq (newB rp z dz l)) := by
+  rw [← chordNew_sum rp n zb z dz l hl]
+  exact Finset.sum_congr rfl fun k hk =>
+    src_path3d_eq_chordNew G hn crossing isfinite nan hF l k hl (Finset.mem_range.1 hk)
+
+/-- a sphere the ray misses (negative discriminant; `Real.sqrt` of it is 0): both stored points coincide, distance 0 -/
+theorem hitDistance_miss (R h X b : ℝ) (hX : 0 ≤ X) (hd : (R + h) * (R + h) - b * b < 0) (hc : R * R - b * b ≤ 0) :
+    hitDistance (intersect R h ⟨1, 0, 0⟩ ⟨-X, b, 0⟩) = 0 := by
+  have eD : (1 * -X + 0 * b + 0 * 0) * (1 * -X + 0 * b + 0 * 0) - (-X * -X + b * b + 0 * 0) + (R + h) * (R + h)
+      = (R + h) * (R + h) - b * b := by ring
+  have eP : (1 * -X + 0 * b + 0 * 0) * (1 * -X + 0 * b + 0 * 0) - (-X * -X + b * b + 0 * 0) + R * R
+      = R * R - b * b := by ring
+  have esd : -(1 * -X + 0 * b + 0 * 0) = X := by ring
+  have hs : Real.sqrt ((R + h) * (R + h) - b * b) = 0 := Real.sqrt_eq_zero_of_nonpos hd.le
+  simp only [intersect, hitDistance, dot, normSq, Geometry.norm, V3.mul, V3.sum, V3.add, V3.sub, V3.smul, sqrt_real, eD, eP, esd, hs,
+    add_zero, sub_zero]
+  rw [if_neg (not_lt.2 hc), clamp0_of_nonneg hX]
+  simp
+
+/-- the instantiation `NanSel` is consistent: on a well-formed grid "distance is positive" is such an `isfinite` (hit spheres
+    have a positive chord, missed spheres distance 0 in real arithmetic) -/
+theorem nanSel_witness (G : GeomOK rp n zb z dz) : NanSel (fun x => decide (0 < x)) rp n zb z dz := by
+  intro l hl j hj
+  have hrp := G.rp_pos
+  obtain ⟨hb1, hb2⟩ := G.b_bounds l hl
+  have hzl := G.zb_nonneg l (by omega)
+  have hc : rp * rp - (rp + (z l + dz l / 2)) * (rp + (z l + dz l / 2)) ≤ 0 := by nlinarith
+  apply decide_eq_decide.2
+  simp only [rayOrigin, intersect_delta]
+  by_cases hg : 0 ≤ (rp + zb j) * (rp + zb j) - (rp + (z l + dz l / 2)) * (rp + (z l + dz l / 2))
+  · have hlj := (good_iff G l hl j hj).1 hg
+    have hd := hitDistance_eq rp (zb j) _ _ G.X_pos.le hg (origin_outside_aux G _ j (by omega)) hc
+    have h1 := G.shells.zb_mono (l + 1) j hlj (by omega)
+    have hpos : 0 < (rp + zb j) * (rp + zb j) - (rp + (z l + dz l / 2)) * (rp + (z l + dz l / 2)) := by nlinarith
+    have := Real.sqrt_pos.2 hpos
+    exact ⟨fun _ => hg, fun _ => by rw [hd]; linarith⟩
+  · have hd := hitDistance_miss rp (zb j) _ _ G.X_pos.le (not_le.1 hg) hc
+    exact ⟨fun h => absurd h (by rw [hd]; exact lt_irrefl 0), fun h => absurd h hg⟩
+
+end geom
 end Taurex.C01SrcProps
